@@ -13,10 +13,38 @@
   * `C09_at_most_one`: counted on the model's ghost copy of the hook log, no machine receives
     more than one Signal in any call, for every machine set, oracle and batch; processing the
     reported events themselves never delivers a Signal (`C09_events_deliver_none`).
+  * Exactness (lower bound, `Proofs/SigDeliver.lean`): `C09_transition_logs_own_entry` (every
+    invocation of `transition` for an existing machine records its own entry),
+    `C09_signal_delivery_exact` (one Signal delivery adds exactly one to the count of the target and
+    nothing to any other machine), `C09_round_delivers` (the delivery round: nothing pending, nobody
+    receives a Signal; `all` pending, every machine exactly one; `allExcept x` pending, every
+    machine but `x` exactly one, and `x` exactly one iff the first round left a signal pending,
+    i.e. iff a machine answered a delivered Signal by signalling), `C09_call_delivers` (the same for
+    a whole call, with the slot as left by the reported events, which themselves deliver nothing:
+    `C09_events_deliver_exactly_none`), and `C09_call_delivers_reachable` for the states reached
+    from `Framework::new` with validated machines by any history of calls.
+  * The slot is a function of the log (`Proofs/SigSlot.lean`): `C09_slot_tracks_log` (the slot after
+    the reported events is the fold of `sigStep` over `signalsIn l`, the machines of the
+    `sampled _ _ STATE_SIGNAL` entries of the call's log segment `l` in chronological order),
+    `C09_answered_iff_logged` (the first round leaves a signal pending iff its segment records such an
+    entry), `C09_lone_or_many` (empty / `allExcept x` / `all` iff nobody / only `x` / two distinct
+    machines signalled), and the property in log terms only: `C09_call_delivers_log`.
+  * Machines that have not ended (`Proofs/SigLive.lean`): `liveSigOf` counts only deliveries to a
+    machine not in END, which is the monitor's `C09.deliveries` (`C09_live_eq_deliveries`).
+    `C09_round_delivers_live` / `C09_call_delivers_live`: a machine that has not ended when the
+    delivery round starts receives its Signal while not ended, an ended machine receives none;
+    `C09_live_at_end`: not ended at the end of the call implies not ended when the round started;
+    `C09_call_deliveries`: exactly the numbers `C09.checkCall` demands of a machine that is live
+    at the end of the call.
   The implementation is tied to this by the correspondence of the full internal log (tag L) and by
   the monitor `C09.monitor` on the implementation's traces.
 -/
 import MbVerif.Proofs.SigCount
+import MbVerif.Proofs.SigDeliver
+import MbVerif.Proofs.SigSlot
+import MbVerif.Proofs.SigLive
+import MbVerif.Props.C01
+import MbVerif.Proofs.C04
 
 namespace Mb.C09
 open Mb
@@ -70,9 +98,187 @@ theorem C09_at_most_one (mi0 : Nat) (es : List TEvent) (t : Int) (s : Fw σ) :
 theorem C09_events_deliver_none (mi0 : Nat) (e : TEvent) (s : Fw σ) :
     sigOf mi0 (processEvent ρ e s) ≤ sigOf mi0 s := sig_processEvent ρ mi0 e s
 
+/-! ### exactness: who receives a Signal -/
+
+/-- Every invocation of `transition` (with fuel left) for a machine that exists extends the log by a
+    segment containing the invocation's own entry. -/
+theorem C09_transition_logs_own_entry (n j : Nat) (ev : Event) (s : Fw σ) (r : Runtime) (m : Machine)
+    (hr : s.rt[j]? = some r) (hm : s.machines[j]? = some m) :
+    ∃ l, (transition ρ (n + 1) j ev s).1.log = l ++ s.log ∧ LogEntry.trans j ev.toNat r.currentState ∈ l :=
+  transition_logs_own_entry ρ n j ev s r m hr hm
+
+/-- Delivering Signal to machine `i` adds exactly one Signal delivery to the count of `i` and none
+    to the count of any other (existing) machine `j`, whatever `i` does in response. -/
+theorem C09_signal_delivery_exact (i j : Nat) (s : Fw σ) (hlen : s.rt.length = s.machines.length)
+    (hj : j < s.rt.length) :
+    sigOf j (transition ρ FUEL i .signal s).1 = sigOf j s + (if i = j then 1 else 0) :=
+  sig_transition_signal_eq ρ j i s ⟨hj, hlen ▸ hj⟩
+
+/-- The delivery round, for an existing machine `j`: nothing pending, no Signal; `all` pending (two or
+    more distinct signallers), exactly one Signal; `allExcept x` pending (lone signaller `x`), exactly
+    one Signal for `j ≠ x`, and for `x` itself exactly one if the first round left a signal pending
+    (a machine answered a delivered Signal by signalling) and none otherwise. -/
+theorem C09_round_delivers (s : Fw σ) (j : Nat) (hlen : s.rt.length = s.machines.length) (hj : j < s.rt.length) :
+    (s.signalPending = none → sigOf j (signalRound ρ s) = sigOf j s) ∧
+    (s.signalPending = some .all → sigOf j (signalRound ρ s) = sigOf j s + 1) ∧
+    (∀ x, s.signalPending = some (.allExcept x) →
+      (j ≠ x → sigOf j (signalRound ρ s) = sigOf j s + 1) ∧
+      (j = x → sigOf j (signalRound ρ s) =
+        sigOf j s + (if (afterFirst ρ s (some x)).signalPending.isSome then 1 else 0))) :=
+  round_delivers ρ s j ⟨hj, hlen ▸ hj⟩
+
+/-- The reported events of a call deliver exactly no Signal. -/
+theorem C09_events_deliver_exactly_none (es : List TEvent) (t : Int) (s : Fw σ) (j : Nat) :
+    sigOf j (eventsDone ρ es t s) = sigOf j s := sig_eventsDone ρ es t s j
+
+/-- A whole call, for an existing machine `j`, with the pending slot as the reported events of the
+    call leave it (`eventsDone ρ es t s` is the state after the events, before the delivery round). -/
+theorem C09_call_delivers (es : List TEvent) (t : Int) (s : Fw σ) (j : Nat)
+    (hlen : s.rt.length = s.machines.length) (hj : j < s.rt.length) :
+    ((eventsDone ρ es t s).signalPending = none → sigOf j (triggerEvents ρ es t s) = sigOf j s) ∧
+    ((eventsDone ρ es t s).signalPending = some .all → sigOf j (triggerEvents ρ es t s) = sigOf j s + 1) ∧
+    (∀ x, (eventsDone ρ es t s).signalPending = some (.allExcept x) →
+      (j ≠ x → sigOf j (triggerEvents ρ es t s) = sigOf j s + 1) ∧
+      (j = x → sigOf j (triggerEvents ρ es t s) =
+        sigOf j s + (if (afterFirst ρ (eventsDone ρ es t s) (some x)).signalPending.isSome then 1 else 0))) :=
+  call_delivers ρ es t s j ⟨hj, hlen ▸ hj⟩
+
+/-- The same for every call of every history of an instance created from validated machines. -/
+theorem C09_call_delivers_reachable (ms : List Machine) (hms : C01.MachinesValid ms) (fp fb : F64) (t0 : Int) (rng : σ)
+    (h : List Call) (es : List TEvent) (t : Int) (j : Nat) (hj : j < ms.length) :
+    let s := runCalls ρ (Fw.init ρ ms fp fb t0 rng) h
+    ((eventsDone ρ es t s).signalPending = none → sigOf j (triggerEvents ρ es t s) = sigOf j s) ∧
+    ((eventsDone ρ es t s).signalPending = some .all → sigOf j (triggerEvents ρ es t s) = sigOf j s + 1) ∧
+    (∀ x, (eventsDone ρ es t s).signalPending = some (.allExcept x) →
+      (j ≠ x → sigOf j (triggerEvents ρ es t s) = sigOf j s + 1) ∧
+      (j = x → sigOf j (triggerEvents ρ es t s) =
+        sigOf j s + (if (afterFirst ρ (eventsDone ρ es t s) (some x)).signalPending.isSome then 1 else 0))) := by
+  intro s
+  have hV : Valid s := C01.C01_state_valid ρ ms hms fp fb t0 rng h
+  have hm : s.machines = ms := by
+    have h1 := run_machines (runCalls_run ρ (Fw.init ρ ms fp fb t0 rng) h)
+    have h2 := run_machines (init_run ρ ms fp fb t0 rng)
+    exact h1.trans h2
+  exact C09_call_delivers ρ es t s j hV.lenRt (by rw [hV.lenRt, hm]; exact hj)
+
+/-! ### the property in terms of the log only -/
+
+/-- The pending slot after the reported events of a call is the slot at the start of the call stepped
+    by the machines that transitioned to the signal pseudo-state, as recorded in the call's log. -/
+theorem C09_slot_tracks_log (es : List TEvent) (t : Int) (s : Fw σ) :
+    ∃ l, (eventsDone ρ es t s).log = l ++ s.log ∧
+      (eventsDone ρ es t s).signalPending = (signalsIn l).foldl sigStep s.signalPending :=
+  slot_tracks_log ρ es t s
+
+/-- The first delivery round leaves a signal pending iff its log segment records a transition to the
+    signal pseudo-state, i.e. iff some machine answered a delivered Signal by signalling. -/
+theorem C09_answered_iff_logged (s : Fw σ) (excluded : Option Nat) :
+    ∃ l, (afterFirst ρ s excluded).log = l ++ s.log ∧
+      ((afterFirst ρ s excluded).signalPending.isSome = true ↔ signalsIn l ≠ []) :=
+  afterFirst_answered ρ s excluded
+
+theorem C09_lone_or_many (ids : List Nat) :
+    (ids.foldl sigStep none = none ↔ ids = []) ∧
+    (∀ x, ids.foldl sigStep none = some (.allExcept x) ↔ ids ≠ [] ∧ ∀ i ∈ ids, i = x) ∧
+    (ids.foldl sigStep none = some .all ↔ ∃ a ∈ ids, ∃ b ∈ ids, a ≠ b) := lone_or_many ids
+
+/-- **C09 on the log.** Let `ids0` be the signallers carried over from the previous call (the slot at
+    the start is `ids0.foldl sigStep none`: `[]` for an empty slot, `[x]` for `allExcept x`), `l1` the
+    log segment of the reported events, and `ids := ids0 ++ signalsIn l1` all machines that
+    transitioned to the signal pseudo-state, with repetitions. For every existing machine `j`:
+    nobody signalled: `j` receives no Signal; two distinct machines signalled: exactly one;
+    only `x` signalled (however often): every `j ≠ x` exactly one, and `x` exactly one if the log
+    segment `l2` of the first delivery round records a signalling transition, none otherwise. -/
+theorem C09_call_delivers_log (es : List TEvent) (t : Int) (s : Fw σ) (j : Nat)
+    (hlen : s.rt.length = s.machines.length) (hj : j < s.rt.length)
+    (ids0 : List Nat) (h0 : s.signalPending = ids0.foldl sigStep none) :
+    ∃ l1, (eventsDone ρ es t s).log = l1 ++ s.log ∧
+      (ids0 ++ signalsIn l1 = [] → sigOf j (triggerEvents ρ es t s) = sigOf j s) ∧
+      ((∃ a ∈ ids0 ++ signalsIn l1, ∃ b ∈ ids0 ++ signalsIn l1, a ≠ b) →
+        sigOf j (triggerEvents ρ es t s) = sigOf j s + 1) ∧
+      (∀ x, ids0 ++ signalsIn l1 ≠ [] → (∀ i ∈ ids0 ++ signalsIn l1, i = x) →
+        (j ≠ x → sigOf j (triggerEvents ρ es t s) = sigOf j s + 1) ∧
+        (j = x → ∃ l2, (afterFirst ρ (eventsDone ρ es t s) (some x)).log = l2 ++ (eventsDone ρ es t s).log ∧
+          sigOf j (triggerEvents ρ es t s) = sigOf j s + (if signalsIn l2 = [] then 0 else 1))) := by
+  obtain ⟨l1, e1, p1⟩ := slot_tracks_log ρ es t s
+  rw [h0, sigStep_fold_from] at p1
+  obtain ⟨c1, c2, c3⟩ := lone_or_many (ids0 ++ signalsIn l1)
+  obtain ⟨d1, d2, d3⟩ := C09_call_delivers ρ es t s j hlen hj
+  refine ⟨l1, e1, fun h => d1 (p1.trans (c1.mpr h)), fun h => d2 (p1.trans (c3.mpr h)), fun x hne hall => ?_⟩
+  obtain ⟨f1, f2⟩ := d3 x (p1.trans ((c2 x).mpr ⟨hne, hall⟩))
+  refine ⟨f1, fun hjx => ?_⟩
+  obtain ⟨l2, e2, a2⟩ := afterFirst_answered ρ (eventsDone ρ es t s) (some x)
+  refine ⟨l2, e2, ?_⟩
+  rw [f2 hjx]
+  by_cases hl : signalsIn l2 = []
+  · have : ¬ (afterFirst ρ (eventsDone ρ es t s) (some x)).signalPending.isSome = true := fun h => (a2.mp h) hl
+    simp [hl, this]
+  · have : (afterFirst ρ (eventsDone ρ es t s) (some x)).signalPending.isSome = true := a2.mpr hl
+    simp [hl, this]
+
+/-! ### machines that have not ended -/
+
+/-- the live count of a log segment is the monitor's count of deliveries -/
+theorem C09_live_eq_deliveries (j : Nat) (l : List LogEntry) : wsum (μLive j) l = deliveries l j :=
+  wsum_live_eq_deliveries j l
+
+/-- The delivery round, counting only Signals delivered to a machine that has not ended: a machine
+    that has not ended when the round starts receives its Signal while not ended. -/
+theorem C09_round_delivers_live (s : Fw σ) (j : Nat) (hlen : s.rt.length = s.machines.length) (hj : j < s.rt.length) :
+    (s.signalPending = none → liveSigOf j (signalRound ρ s) = liveSigOf j s) ∧
+    (s.signalPending = some .all →
+      liveSigOf j (signalRound ρ s) = liveSigOf j s + (if notEnded s j = true then 1 else 0)) ∧
+    (∀ x, s.signalPending = some (.allExcept x) →
+      (j ≠ x → liveSigOf j (signalRound ρ s) = liveSigOf j s + (if notEnded s j = true then 1 else 0)) ∧
+      (j = x → liveSigOf j (signalRound ρ s) =
+        liveSigOf j s +
+          (if (afterFirst ρ s (some x)).signalPending.isSome = true ∧ notEnded s j = true then 1 else 0))) :=
+  round_delivers_live ρ s j ⟨hj, hlen ▸ hj⟩
+
+theorem C09_call_delivers_live (es : List TEvent) (t : Int) (s : Fw σ) (j : Nat)
+    (hlen : s.rt.length = s.machines.length) (hj : j < s.rt.length) :
+    ((eventsDone ρ es t s).signalPending = none → liveSigOf j (triggerEvents ρ es t s) = liveSigOf j s) ∧
+    ((eventsDone ρ es t s).signalPending = some .all →
+      liveSigOf j (triggerEvents ρ es t s) =
+        liveSigOf j s + (if notEnded (eventsDone ρ es t s) j = true then 1 else 0)) ∧
+    (∀ x, (eventsDone ρ es t s).signalPending = some (.allExcept x) →
+      (j ≠ x → liveSigOf j (triggerEvents ρ es t s) =
+        liveSigOf j s + (if notEnded (eventsDone ρ es t s) j = true then 1 else 0)) ∧
+      (j = x → liveSigOf j (triggerEvents ρ es t s) =
+        liveSigOf j s +
+          (if (afterFirst ρ (eventsDone ρ es t s) (some x)).signalPending.isSome = true ∧
+              notEnded (eventsDone ρ es t s) j = true then 1 else 0))) :=
+  call_delivers_live ρ es t s j ⟨hj, hlen ▸ hj⟩
+
+/-- a machine that has not ended when the call returns had not ended when the delivery round began -/
+theorem C09_live_at_end (es : List TEvent) (t : Int) (s : Fw σ) (j : Nat) (hj : j < s.rt.length)
+    (h : notEnded (triggerEvents ρ es t s) j = true) : notEnded (eventsDone ρ es t s) j = true :=
+  live_at_end ρ es t s j hj h
+
+/-- What the monitor `C09.checkCall` demands of a machine `j` that is live at the end of the call, on
+    the call's log segment `l` (with the monitor's own `deliveries`). -/
+theorem C09_call_deliveries (es : List TEvent) (t : Int) (s : Fw σ) (j : Nat)
+    (hlen : s.rt.length = s.machines.length) (hj : j < s.rt.length)
+    (hlive : notEnded (triggerEvents ρ es t s) j = true) :
+    ∃ l, (triggerEvents ρ es t s).log = l ++ s.log ∧
+      ((eventsDone ρ es t s).signalPending = none → deliveries l j = 0) ∧
+      ((eventsDone ρ es t s).signalPending = some .all → deliveries l j = 1) ∧
+      (∀ x, (eventsDone ρ es t s).signalPending = some (.allExcept x) →
+        (j ≠ x → deliveries l j = 1) ∧
+        (j = x → deliveries l j =
+          if (afterFirst ρ (eventsDone ρ es t s) (some x)).signalPending.isSome = true then 1 else 0)) :=
+  call_deliveries ρ es t s j ⟨hj, hlen ▸ hj⟩ hlive
+
 /-- Non-vacuity: machine 2 signalling three times keeps excluding machine 2; machines 2 and 0 give `all`. -/
 example : [2, 2, 2].foldl sigStep none = some (.allExcept 2) := by decide
 example : [2, 0, 2].foldl sigStep none = some .all := by decide
 example : firstRound 4 (some 2) = [0, 1, 3] := by decide
+
+/-- Non-vacuity: the signalling machines of a log segment (newest first) in chronological order; a
+    transition to another state is not a signal. -/
+example : signalsIn [.sampled 2 0 STATE_SIGNAL, .trans 2 0 1, .sampled 1 3 0, .sampled 0 1 STATE_SIGNAL] = [0, 2] := by
+  decide
+example : deliveries [.trans 1 Gen.EV_Signal 0, .trans 2 Gen.EV_Signal STATE_END, .trans 1 0 0] 1 = 1 := by decide
+example : deliveries [.trans 1 Gen.EV_Signal 0, .trans 2 Gen.EV_Signal STATE_END, .trans 1 0 0] 2 = 0 := by decide
 
 end Mb.C09
